@@ -1,6 +1,8 @@
 import HappyProofs.C05.Equiv
 import HappyProofs.C05.Idle
 import HappyProofs.C05.Reject
+import HappyProofs.C05.Full
+import HappyProofs.C05.Stateful
 import HappyModel.C05.Driver
 /-!
 # C05 — property theorems
@@ -16,6 +18,13 @@ Handlers are universally quantified functions `σ → Ev → σ × List Emit` of
 entity state; window ends, fuel, configurations and initial heaps are universally quantified.
 The window rule is the repaired one (`strict = true`); `no_time_travel_current_false` refutes the
 clause for the rule of the unpatched code.
+
+The main clause: `par_eq_seq_full` (`Full.lean`, every entity-local stateful handler) is *refuted* by
+`par_eq_seq_full_false_for_order_sensitive_handlers`; what is true is proved in three theorems —
+`par_eq_seq_partial` (below: emissions a function of the delivered event), and in `Stateful.lean`
+`par_eq_seq_tie_commutative` (stateful handlers that commute on same-timestamp deliveries to one entity) and
+`par_eq_seq_no_ties` / `par_eq_seq_no_ties_observed` (arbitrary stateful handlers, no entity receives two
+deliveries with one timestamp: logs equal), with `seq_final_state` for the final entity states.
 -/
 namespace HappyModel.C05
 
@@ -99,37 +108,6 @@ theorem independent_eq_separate (h : Handler σ) (c : Cfg) (strict : Bool) (fuel
   simp [parallelRun, hno, runIndependent]
 
 /-! ## the main clause: per-entity delivery sequences equal up to the order inside one timestamp -/
-
-/-- an entity-local stateful handler: `hE` sees and updates only the state of the entity the event
-    is addressed to -/
-def liftLocal {τ : Type} (hE : τ → Ev → τ × List Emit) : Handler (Nat → τ) :=
-  fun st e => (fun x => if x = e.tgt then (hE (st e.tgt) e).1 else st x, (hE (st e.tgt) e).2)
-
-/-- the initial state of a partitioned run of the events `evs` (what `ParallelSimulation.__init__`
-    and `schedule(..., partition=…)` build) -/
-structure ParInit (c : Cfg) (ids : List Nat) (start : Nat) (evs : List Ev) (ps : List (Part σ)) : Prop where
-  pids : ps.map (·.pid) = ids
-  clock : ∀ p ∈ ps, p.clock = start
-  fresh : ∀ p ∈ ps, p.log = [] ∧ p.tt = [] ∧ p.outbox = [] ∧ p.bad = false
-  owned : ∀ p ∈ ps, ∀ e ∈ p.heap, c.part e.tgt = p.pid
-  split : (ps.flatMap (·.heap)).Perm evs
-
-/-- **par_eq_seq** (full statement, not proved): for every entity-local stateful handler, every
-    valid configuration (window ≤ every link latency, links point to existing partitions), every
-    partitioning of the initial events: if the coordinated run returns without error and the
-    sequential run halts, every entity observes the same deliveries in both runs up to the end
-    time, up to the order inside one timestamp. -/
-def par_eq_seq_full : Prop :=
-  ∀ (τ : Type) (hE : τ → Ev → τ × List Emit) (c : Cfg) (ids : List Nat)
-    (fuel wEff endT n start : Nat) (st : Nat → τ) (evs : List Ev) (ps : List (Part (Nat → τ))),
-    ids.Nodup → (∀ l ∈ c.links, l.dst ∈ ids) → WindowLeLat c wEff → 0 < wEff → start ≤ endT →
-    (∀ e ∈ evs, start ≤ e.time) → ParInit c ids start evs ps → (∀ p ∈ ps, p.st = st) →
-    (coordLoop (liftLocal hE) c true fuel wEff endT n
-        { parts := ps, cur := start, windows := 0, injected := 0, outboxed := 0, err := none }).err = none →
-    Halted (liftLocal hE) seqRoute false endT (runSeq (liftLocal hE) endT fuel (Part.init 0 start st evs)) →
-    ∀ x, TieEquiv (upTo endT ((runSeq (liftLocal hE) endT fuel (Part.init 0 start st evs)).obsLog x))
-      (upTo endT (parObs (coordLoop (liftLocal hE) c true fuel wEff endT n
-        { parts := ps, cur := start, windows := 0, injected := 0, outboxed := 0, err := none }).parts x))
 
 theorem ParInit.sinv {em : PEv → List Emit} {rank : PEv → Nat} {T : Nat} {c : Cfg} {ids : List Nat}
     {start : Nat} {evs : List Ev} {ps : List (Part σ)} (hi : ParInit c ids start evs ps)
